@@ -740,6 +740,18 @@ func (s *PathState) addFact0(t *Term, truth bool) bool {
 			a = Atom{Op: "false", A: t}
 		}
 	}
+	// (x + c1) op c2  is  x op (c2 - c1)
+	if a.B != nil && a.A.Op == "binop" && (a.A.Aux == "+" || a.A.Aux == "-") && a.A.Args[1] != nil && a.A.Args[0] != nil {
+		if c1, ok1 := a.A.Args[1].ConstInt(); ok1 && a.A.Args[0].Op != "const" {
+			if c2, ok2 := a.B.ConstInt(); ok2 {
+				if a.A.Aux == "-" {
+					c1 = -c1
+				}
+				k := fmt.Sprint(c2 - c1)
+				a = Atom{Op: a.Op, A: a.A.Args[0], B: &Term{K: "c:" + k, Op: "const", Aux: k, Folded: true, Int: c2 - c1}}
+			}
+		}
+	}
 	// comparison between two constants: decide it
 	if a.B != nil && a.A.Op == "const" && a.B.Op == "const" {
 		if x, ok := a.A.ConstInt(); ok {
@@ -813,7 +825,134 @@ func (s *PathState) addFact0(t *Term, truth bool) bool {
 		}
 	}
 	s.Atoms = append(s.Atoms, a)
+	if !s.deriveAtoms(a) {
+		return false
+	}
 	return s.propagateBool()
+}
+
+// nonNegative: lengths and unsigned values.
+func nonNegative(t *Term) bool {
+	if t == nil {
+		return false
+	}
+	if t.Op == "call" && (t.Aux == "builtin len" || t.Aux == "builtin cap") {
+		return true
+	}
+	if t.V != nil {
+		if b, ok := t.V.Type().Underlying().(*types.Basic); ok && b.Info()&types.IsUnsigned != 0 {
+			return true
+		}
+	}
+	return false
+}
+
+func isStringTerm(t *Term) bool {
+	if t == nil || t.V == nil {
+		return false
+	}
+	b, ok := t.V.Type().Underlying().(*types.Basic)
+	return ok && b.Info()&types.IsString != 0
+}
+
+func intConst(n int64) *Term {
+	k := fmt.Sprint(n)
+	return &Term{K: "c:" + k, Op: "const", Aux: k, Folded: true, Int: n}
+}
+
+func (s *PathState) hasAtom(op string, a, b *Term) bool {
+	for _, e := range s.Atoms {
+		if e.Op == op && e.A.K == a.K && e.B != nil && b != nil && e.B.K == b.K {
+			return true
+		}
+	}
+	return false
+}
+
+func (s *PathState) addDerived(op string, a, b *Term) {
+	if !s.hasAtom(op, a, b) {
+		s.Atoms = append(s.Atoms, Atom{Op: op, A: a, B: b})
+	}
+}
+
+// deriveAtoms adds the equivalent spellings of an integer/string fact, so that a rule asking for one spelling finds it
+// whichever way the code wrote the test: x < c / x <= c-1, x > c / x >= c+1; bounds that meet give x == c; for lengths
+// and unsigned values 0 is a lower bound (x <= 0 is x == 0, x >= 1 is x != 0); len(SplitN(_, _, n)) <= n;
+// len(s) == 0 / s == "" for strings. Returns false if the bounds are contradictory.
+func (s *PathState) deriveAtoms(a Atom) bool {
+	if a.B == nil {
+		return true
+	}
+	// strings: emptiness
+	if isStringTerm(a.A) && a.B.IsConst(`""`) && (a.Op == "==" || a.Op == "!=") {
+		lt := &Term{K: "len(" + a.A.K + ")", Op: "call", Aux: "builtin len", Args: []*Term{a.A}}
+		s.addDerived(a.Op, lt, intConst(0))
+		if a.Op == "!=" {
+			s.addDerived(">", lt, intConst(0))
+			s.addDerived(">=", lt, intConst(1))
+		} else {
+			s.addDerived("<=", lt, intConst(0))
+			s.addDerived("<", lt, intConst(1))
+		}
+		return true
+	}
+	c, ok := a.B.ConstInt()
+	if !ok {
+		return true
+	}
+	x := a.A
+	switch a.Op {
+	case "<":
+		s.addDerived("<=", x, intConst(c-1))
+	case "<=":
+		s.addDerived("<", x, intConst(c+1))
+	case ">":
+		s.addDerived(">=", x, intConst(c+1))
+	case ">=":
+		s.addDerived(">", x, intConst(c-1))
+	}
+	lo, hi := s.Interval(x)
+	if nonNegative(x) && lo < 0 {
+		lo = 0
+	}
+	if a.Op == "!=" && nonNegative(x) && c == 0 && lo < 1 {
+		lo = 1
+		s.addDerived(">=", x, intConst(1))
+	}
+	if x.Op == "call" && x.Aux == "builtin len" && len(x.Args) == 1 && x.Args[0] != nil {
+		if sp := x.Args[0]; sp.Op == "call" && sp.Aux == "strings.SplitN" && len(sp.Args) == 3 {
+			if n, ok := sp.Args[2].ConstInt(); ok && n > 0 && n < hi {
+				hi = n
+			}
+		}
+	}
+	if lo > hi {
+		return false
+	}
+	if lo == hi {
+		s.addDerived("==", x, intConst(lo))
+	}
+	if nonNegative(x) {
+		if lo >= 1 {
+			s.addDerived("!=", x, intConst(0))
+			s.addDerived(">", x, intConst(0))
+		}
+		if hi <= 0 {
+			s.addDerived("==", x, intConst(0))
+		}
+	}
+	// lengths of strings: the string itself
+	if x.Op == "call" && x.Aux == "builtin len" && len(x.Args) == 1 && isStringTerm(x.Args[0]) {
+		str := x.Args[0]
+		empty := &Term{K: `c:""`, Op: "const", Aux: `""`}
+		if lo >= 1 {
+			s.addDerived("!=", str, empty)
+		}
+		if hi <= 0 {
+			s.addDerived("==", str, empty)
+		}
+	}
+	return true
 }
 
 // propagateBool closes the truth atoms under (in)equalities between booleans: x != y ∧ true(y) ⇒ false(x), etc.
@@ -836,7 +975,29 @@ func (s *PathState) propagateBool() bool {
 			if t.IsConst("false") {
 				return -1
 			}
-			return truth[t.K]
+			if v := truth[t.K]; v != 0 {
+				return v
+			}
+			// a comparison used as a boolean value: what the facts say about it
+			if t.Op == "binop" && len(t.Args) == 2 && t.Args[0] != nil && t.Args[1] != nil {
+				switch t.Aux {
+				case "==":
+					if s.Eq(t.Args[0], t.Args[1]) {
+						return 1
+					}
+					if s.Ne(t.Args[0], t.Args[1]) {
+						return -1
+					}
+				case "!=":
+					if s.Ne(t.Args[0], t.Args[1]) {
+						return 1
+					}
+					if s.Eq(t.Args[0], t.Args[1]) {
+						return -1
+					}
+				}
+			}
+			return 0
 		}
 		for _, a := range s.Atoms {
 			if (a.Op != "==" && a.Op != "!=") || a.B == nil {
@@ -856,6 +1017,14 @@ func (s *PathState) propagateBool() bool {
 					return false
 				}
 			case x == 0 && a.A.Op != "const":
+				if a.A.Op == "binop" && (a.A.Aux == "==" || a.A.Aux == "!=") {
+					n0 := len(s.Atoms)
+					if !s.addFact0(a.A, sign*y > 0) {
+						return false
+					}
+					changed = len(s.Atoms) > n0
+					break
+				}
 				op := "true"
 				if sign*y < 0 {
 					op = "false"
@@ -863,6 +1032,14 @@ func (s *PathState) propagateBool() bool {
 				s.Atoms = append(s.Atoms, Atom{Op: op, A: a.A})
 				changed = true
 			case y == 0 && a.B.Op != "const":
+				if a.B.Op == "binop" && (a.B.Aux == "==" || a.B.Aux == "!=") {
+					n0 := len(s.Atoms)
+					if !s.addFact0(a.B, sign*x > 0) {
+						return false
+					}
+					changed = len(s.Atoms) > n0
+					break
+				}
 				op := "true"
 				if sign*x < 0 {
 					op = "false"
@@ -910,6 +1087,14 @@ func (s *PathState) IsTrue(t *Term) bool {
 			return true
 		}
 	}
+	if t.Op == "binop" && len(t.Args) == 2 && t.Args[0] != nil && t.Args[1] != nil {
+		switch t.Aux {
+		case "==":
+			return s.Eq(t.Args[0], t.Args[1])
+		case "!=":
+			return s.Ne(t.Args[0], t.Args[1])
+		}
+	}
 	return false
 }
 
@@ -920,6 +1105,18 @@ func (s *PathState) IsFalse(t *Term) bool {
 	}
 	if t.IsConst("false") {
 		return true
+	}
+	if t.Op == "binop" && len(t.Args) == 2 && t.Args[0] != nil && t.Args[1] != nil {
+		switch t.Aux {
+		case "==":
+			if s.Ne(t.Args[0], t.Args[1]) {
+				return true
+			}
+		case "!=":
+			if s.Eq(t.Args[0], t.Args[1]) {
+				return true
+			}
+		}
 	}
 	for _, a := range s.Atoms {
 		if a.Op == "false" && a.A.K == t.K {
@@ -955,6 +1152,17 @@ func (s *PathState) Ne(a, b *Term) bool {
 	}
 	if a.Op == "const" && b.Op == "const" && a.K != b.K {
 		return true
+	}
+	// x == c1 on the path and the other side is a different constant
+	for _, pr := range [][2]*Term{{a, b}, {b, a}} {
+		if pr[1].Op != "const" || pr[1].Folded {
+			continue
+		}
+		for _, f := range s.Atoms {
+			if f.Op == "==" && f.B != nil && f.A.K == pr[0].K && f.B.Op == "const" && !f.B.Folded && f.B.K != pr[1].K {
+				return true
+			}
+		}
 	}
 	return false
 }
